@@ -267,8 +267,43 @@ def check(repo: Repo, run: Run) -> None:
 
     meths = class_methods_n(E)
     sub = meths.get("sub_evaluator")
-    ok = sub is not None and "activation=self.activation" in ast.unparse(sub)
-    run.ob("C12.N2", "Evaluator.sub_evaluator", ok, "the macro sub-evaluator is built on the current activation (outer variables stay visible)", ev.loc(sub) if sub else str(ev.path))
+    if sub is None:
+        raise AnchorMissing("Evaluator.sub_evaluator")
+    # every returning path hands out an Evaluator built *in this call* on the activation current now: an evaluator
+    # kept from an earlier visit (a memo per body tree) still holds the activation of that visit, so inside a nested
+    # macro the outer iteration variable resolves to its first value
+    from ..core.paths import paths_of as _po
+
+    verdict: Optional[bool] = True
+    why = "the macro sub-evaluator is built on the current activation (outer variables stay visible)"
+    try:
+        spaths = [p for p in _po(ev, E, sub) if p.kind == "return" and p.value is not None]
+    except OverflowError:
+        spaths = []
+    if not spaths:
+        verdict, why = None, "no returning path"
+    me = sub.args.args[0].arg
+    for p in spaths:
+        v = strip_cast(p.value)
+        if isinstance(v, ast.Call) and (dotted(v.func) or "").split(".")[-1] in ("Evaluator", "__class__", "type(self)") or (isinstance(v, ast.Call) and ast.unparse(v.func) in (f"type({me})", f"{me}.__class__")):
+            act = [k.value for k in v.keywords if k.arg == "activation"] + list(v.args[1:2])
+            if not act or ast.unparse(strip_cast(act[0])) != f"{me}.activation":
+                verdict, why = False, f"the sub-evaluator is built on `{ast.unparse(act[0]) if act else '?'}`, not on the evaluator's current activation: variables of enclosing macros are not visible in the body"
+                break
+            continue
+        stored = v
+        while isinstance(stored, ast.Subscript):
+            stored = stored.value
+        if isinstance(stored, ast.Attribute) and isinstance(stored.value, ast.Name) and stored.value.id == me or (isinstance(stored, ast.Call) and isinstance(stored.func, ast.Attribute) and stored.func.attr in ("get", "setdefault") and ast.unparse(stored.func.value).startswith(me + ".")):
+            verdict = False
+            why = (f"sub_evaluator returns `{ast.unparse(v)[:60]}`, an evaluator kept from an earlier visit: it still holds the activation of that visit, so in a nested macro "
+                   "the body sees the first value of the enclosing iteration variable ([1,2,3].map(x, [10].map(y, x + y)) gives [[11],[11],[11]])")
+            break
+        verdict, why = None, f"`{ast.unparse(v)[:60]}` was not recognised as a freshly built evaluator"
+    if verdict is None:
+        run.inconclusive("C12.N2", "Evaluator.sub_evaluator", why)
+    else:
+        run.ob("C12.N2", "Evaluator.sub_evaluator", verdict, why, ev.loc(sub))
     for b in ("build_macro_eval", "build_ss_macro_eval", "build_reduce_macro_eval"):
         fn = meths.get(b)
         if fn is None:
